@@ -192,3 +192,39 @@ def frame_changes(before, after, E=None, allow_skeleton=True):
         elif world.norm(a, p) != world.norm(b, p):
             out.append((p, 'modified'))
     return out
+
+
+# ---------------------------------------------------------------------------------------------
+def add_trash_dir(W, td):
+    W.dir(td, mode=0o700).dir(td + '/files', mode=0o700).dir(td + '/info', mode=0o700)
+    return W
+
+
+def add_trashed(W, td, name, path_value, date_value='2020-01-01T00:00:00', payload='file', raw=None, tag=''):
+    """hand-built trash entry: info/<name>.trashinfo (+ payload of the given kind; None = no payload)"""
+    if td + '/info' not in W.nodes:
+        add_trash_dir(W, td)
+    if raw is None:
+        raw = '[Trash Info]\nPath=%s\n' % path_value
+        if date_value is not None:
+            raw += 'DeletionDate=%s\n' % date_value
+    W.file('%s/info/%s.trashinfo' % (td, name), raw)
+    if payload:
+        add_entry(W, '%s/files/%s' % (td, name), payload, tag=tag)
+    return W
+
+
+def entry_state(before, after, td, name):
+    """'kept' (pair byte-identical) | 'purged' (both gone) | 'half:<what>'"""
+    ip, fp = '%s/info/%s.trashinfo' % (td, name), '%s/files/%s' % (td, name)
+    ib, ia = before.get(ip), after.get(ip)
+    fb, fa = world.under(before, fp), world.under(after, fp)
+    if ia is None and not fa:
+        return 'purged'
+    if ia is not None and ia[3] == ib[3] and fa == fb:
+        return 'kept'
+    if ia is None:
+        return 'half:info-gone-payload-left'
+    if not fa and fb:
+        return 'half:payload-gone-info-left'
+    return 'half:modified'
